@@ -66,7 +66,7 @@ CATALOG = [
     ("seed-C03_m3", "seeded", "C03_m3", [("R-CLAMP", "raw-bucketsize-used")]),
     ("seed-C04_m1", "seeded", "C04_m1", [("R-BISECT", "StringDictionaryRPDAC::locatePrefix#right-upper")]),
     ("seed-C04_m2", "seeded", "C04_m2", [("R-BUCKET", "last-bucket-var")]),
-    ("seed-C04_m3", "seeded", "C04_m3", [("R-PURE-PREFIX", "anchoredQuery#write-to-global")]),
+    ("seed-C04_m3", "seeded", "C04_m3", [("R-QUERYPURE", "anchoredQuery#write-to-global")]),
     ("seed-C05_m1", "seeded", "C05_m1", [("R-SAMPLECOUNT", "sample-count-conversion-loop")]),
     ("seed-C05_m2", "seeded", "C05_m2", [("R-DUPSKIP", "IteratorDictStringXBWDuplicates::next#no-skip-loop")]),
     ("seed-C07_m1", "seeded", "C07_m1", [("R-SLACK", "StringDictionaryPFC::StringDictionaryPFC#slack")]),
@@ -112,7 +112,7 @@ CATALOG = [
     ("seed-C13_m5", "seeded", "C13_m5", [("R-CHUNKINIT", "chunk-extracted")]),
     ("seed-C14_m4", "seeded", "C14_m4", [("R-REFCOUNT", "no-acquire:E")]),
     ("seed-C14_m5", "seeded", "C14_m5", [("R-PATTERN", "StringDictionaryHASHRPF::locate#param0-not-restored")]),
-    ("seed-C14_m6", "seeded", "C14_m6", [("R-QUERYPURE", "write-to-this.last_part"), ("R-PURE-BASIC", "write-to-this.last_part")]),
+    ("seed-C14_m6", "seeded", "C14_m6", [("R-QUERYPURE", "write-to-this.last_part")]),
     ("seed-C15_m5", "seeded", "C15_m5", [("R-MIRROR", "StringDictionaryHASHHF::save<->StringDictionaryHASHHF::load")]),
     ("seed-C15_m6", "seeded", "C15_m6", [("R-METADATA", "StringDictionaryPFC::StringDictionaryPFC#maxlength")]),
     ("seed-C16_m4", "seeded", "C16_m4", [("R-TAGS", "StringDictionaryXBW::load#tagcheck")]),
@@ -148,7 +148,7 @@ CATALOG = [
     ("seed-C13_m8", "seeded", "C13_m8", [("R-CHUNKINIT", "header-bound-maxlength")]),
     ("seed-C13_m9", "seeded", "C13_m9", [("R-DEDUP", "SSA::locate#occs-extent")]),
     ("seed-C14_m7", "seeded", "C14_m7", [("R-PATTERN", "extractStringAndCompareRP#param1-not-restored"), ("R-CMPEND", "extractStringAndCompareRP")]),
-    ("seed-C14_m9", "seeded", "C14_m9", [("R-QUERYPURE", "static-local-cmask"), ("R-PURE-PREFIX", "static-local-cmask")]),
+    ("seed-C14_m9", "seeded", "C14_m9", [("R-QUERYPURE", "static-local-cmask")]),
     ("seed-C15_m7", "seeded", "C15_m7", [("R-METADATA", "StringDictionary::maxLength#accessor")]),
     ("seed-C15_m9", "seeded", "C15_m9", [("R-NARROW", "StringDictionaryRPDAC::save#narrow-maxlength")]),
     ("seed-C16_m7", "seeded", "C16_m7", [("R-TAGS", "tag-narrowed")]),
@@ -251,7 +251,7 @@ CATALOG = [
     ("sub-bisect-step", "subst", ("StringDictionaryRPDAC.cpp", "      if (cmp == 0)\n        rl = rc;\n      else\n        rr = rc;", "      if (cmp == 0)\n        rl = rc + 1;\n      else\n        rr = rc;"),
      [("R-BISECT", "StringDictionaryRPDAC::locatePrefix#right-step")]),
     ("sub-purerank", "subst", ("StringDictionaryRPDAC.cpp", "uint StringDictionaryRPDAC::locateRank(uint rank) { return rank; }", "uint StringDictionaryRPDAC::locateRank(uint rank) { static uint last = 0; last = rank; return last; }"),
-     [("R-PURE-RANK", "StringDictionaryRPDAC::locateRank"), ("R-QUERYPURE", "StringDictionaryRPDAC::locateRank")]),
+     [("R-QUERYPURE", "StringDictionaryRPDAC::locateRank")]),
     ("sub-lockorder", "subst", ("parallel/Worker.hpp", "  bool stopped() {\n    std::lock_guard lg(mutex_stop);\n    return _stopped;",
                                 "  bool stopped() {\n    std::lock_guard lg(mutex_stop);\n    std::lock_guard lg2(shared_mutex);\n    return _stopped;"),
      [("R-LOCKORDER", "")]),
